@@ -107,6 +107,7 @@ def check_case(run, case):
                         return
                     continue
                 run.ev('scored')
+                run.evals += 1
                 first[s] = r
                 _, cat, p, omen = r
                 fe, fw = found.get('e', []), found.get('w', [])
@@ -168,7 +169,7 @@ def check_case(run, case):
                 run.ev('limit_variants_checked')
         finally:
             sp.email_detection, sp.website_detection = oe, ow
-        run.case()
+        run.ev('rulesets')
         nz = [(s, first[s][2]) for s in first if first[s][2]]
         run.sample({'list': case['items'][:5], 'encoding': case['encoding'], 'candidates': len(cands), 'nonzero': len(nz), 'examples': nz[:4],
                     'categories': dict(Counter(first[s][1] for s in first))})
